@@ -45,6 +45,11 @@ class TarSuite(Suite):
                 op["sfilter2"] = {"exclude": [(lambda c: hx(b"".join(b"\\" + bytes([x]) if x in b"*?[]\\" else bytes([x]) for x in bytes.fromhex(c))))(rng.choice(hl)["ln"])]}
                 if rng.random() < 0.7:
                     op["src"]["kind"] = "disk"      # (the stats of an on-disk view come from the library's own lstat code)
+            if rng.random() < 0.3:
+                # ... and once more into a sink that fails: in the trailer / the padding of the last member (the last bytes an archive
+                # gets), or anywhere
+                op["sink"] = {"from_end": rng.choice([1, 2, 511, 512, 513, 1023, 1024, 1025, 1100, 1400, 1536, rng.randint(1, 1536)])} if rng.random() < 0.7 \
+                    else {"permille": rng.randint(0, 999)}
             ops.append(op)
         return ops
 
@@ -69,6 +74,9 @@ class TarSuite(Suite):
             return Verdict(True, None, "view contains a socket (archive/tar refuses it)")
         if impl.get("werr"):
             return Verdict(False, False, "WriteTar failed: %s" % impl["werr"])
+        sk = impl.get("sink")
+        if sk and sk["limit"] < sk["total"] and not sk["err"]:
+            return Verdict(False, False, "WriteTar reported success although its sink failed after %d of the %d bytes of the archive" % (sk["limit"], sk["total"]))
         notes = []
         ok = True
         if impl.get("readerr"):
